@@ -137,6 +137,10 @@ def build_format_reused(spec, ext):
     return fmt, flat_taken, richer, rejected
 
 
+EXT_CMDS = [{"name": "server", "aliases": ["srv"]}, {"name": "abc", "aliases": ["x"]}, {"name": "hello", "aliases": []},
+            {"name": "copy", "aliases": ["cp", "10", "true"]}, {"name": "zzz", "aliases": ["7", "1.5"]}]
+
+
 def gen_ext(rng, spec, unknown_names=(("nosuchopt", "Y"), ("unknown", "z"))):
     """elements a builder can still take after the format of `spec` was taken from it (argument rules respected:
     nothing after a multi-valued argument, no required argument after an optional one); the option names include the
@@ -168,9 +172,15 @@ def gen_ext(rng, spec, unknown_names=(("nosuchopt", "Y"), ("unknown", "z"))):
         if mode != "flag":
             o["default"] = enc(default_for(rng, ty, mode == "multi"))
         ext_opts.append(o)
-    # pending finding, see report: no command names among the later additions (a format taken from a builder shares the
-    # builder's command-name list on the unchanged tree)
-    return {"cmds": [], "args": ext_args, "opts": ext_opts}
+    # command names (with aliases) spelled like words the generated lines use as positionals: a format that picked them up
+    # would take such a positional for a command name
+    used_names = set()
+    for c in cmds:
+        used_names.add(c["name"])
+        used_names.update(c.get("aliases", []))
+    cpool = [c for c in EXT_CMDS if c["name"] not in used_names and not used_names & set(c["aliases"])]
+    ext_cmds = [dict(c, aliases=list(c["aliases"])) for c in rng.sample(cpool, min(len(cpool), rng.choice([0, 0, 1, 1, 2])))]
+    return {"cmds": ext_cmds, "args": ext_args, "opts": ext_opts}
 
 
 def _type_of_flags(obj, cls):
